@@ -618,6 +618,10 @@ class C08(core.Check):
             C(b'## $', [['%', 5]]), C(b'##*', [['%', 5]]), C(b'$', [['%', 5]]), C(b'## $', [['%', 5], ['%', 6]]),
             C(b'##.##^^^^', [S('9.996')]), C(b'##^^^^', [['%', 96]]), C(b'##.#^^^^', [D('9.95')]),
             C(b'###^^^^', [S('0.996')]),
+            # ^^^^ fields with more digit positions than the type has digits (radix position / zero padding)
+            C(b'#########.########^^^^', [S('9.996'), S('-9999999'), S('0.000123')]),
+            C(b'+###########.##########^^^^', [D('9.996'), D('-1234567890123456'), D('0.5')]),
+            C(b'**$#######.###^^^^', [S('12345.678')]),
             # seeded C08d: iabs() without clone() cleared the sign of the variable itself (demo.py vectors)
             C(b'###.#', [S('-5.5'), S('-5.5')]), C(b'+##.## ', [D('-2.25'), D('-2.25')]),
             C(b'###-', [S('-7'), S('-7')], arr=1), C(b'**##.##^^^^', [D('-2.25')]),
